@@ -115,11 +115,12 @@ Proof.
   intros (N & P) H. unfold caller_step in H. cbn zeta in H.
   destruct (c_pc (cl s)) eqn:Epc; try discriminate; try (cbn in P; discriminate).
   all: try (destruct N as (L & F & O); rewrite L in H; assert (N : NL s) by (split; auto)).
+  all: try match type of H with (if false then _ else ?b) = ?r => change (b = r) in H end.
   all: repeat match type of H with (if ?b then _ else _) = _ => destruct b end; inv_some H.
   all: try (first [apply nlp_after_inuse|apply nlp_scan_inuse|apply nlp_flush_body|apply nlp_complete_job|apply nlp_wait_all
                   |apply nlp_rel_scan|apply nlp_finish_op]; nl_same N).
   all: try (apply nlp_pc; [nl_same N|reflexivity]).
-  all: apply nlp_finish_op; split; [reflexivity|split; assumption].
+  all: apply nlp_pc; [|reflexivity]; split; [reflexivity|split; assumption].
 Qed.
 
 Lemma nlp_worker_step cfg t s s' : NLP s -> worker_step cfg t s = Some s' -> NLP s'.
@@ -560,7 +561,7 @@ Proof.
       apply gr_nojobs; [repeat split|reflexivity|reflexivity|cbn; apply upd_length|cbn [mt set_pl s0]; rewrite PD; lia].
     + intros (E & R & _). apply sl_rel_scan. split; auto.
   - (* CInitBuf *)
-    match type of H with (if _ then Some (set_cpc _ ?x) else _) = _ => set (s1 := x) in * end.
+    match type of H with Some (set_cpc _ ?x) = _ => set (s1 := x) in * end.
     assert (Hnw : forall t x, nth_error (ws s) t = Some x -> active (w_pc x) = true -> False).
     { intros t x Hx Ax. destruct (k_wrk _ _ K t x Hx Ax) as (i & (X & Y) & _). lia. }
     assert (L1 : LInv cfg s1).
@@ -572,16 +573,24 @@ Proof.
     assert (SK1 : SrcOk cfg s1).
     { split; [cbn; pose proof (Mr_pos cfg); lia|]. intros i (X & Y). cbn in X, Y. lia. }
     assert (Hns : ~ sealed s1) by (intros (E & _); cbn in E; discriminate).
-    destruct (ldm (mt s)); inv_some H.
-    + eapply linv_gr; [exact SK1|exact K'|exact L1| |reflexivity|intros X; contradiction]. apply gr_same; [repeat split|reflexivity|reflexivity|reflexivity].
-    + eapply linv_gr; [exact SK1|exact K'|exact L1|apply gr_finish_op|apply nz_finish_op|intros X; contradiction].
-  - (* CInitSeq *)
     inv_some H.
-    match goal with |- LInv cfg (finish_op cfg ?x _) => set (s0 := x) end.
-    assert (L0 : LInv cfg s0) by (eapply linv_ext; [..|exact L]; reflexivity).
-    assert (SK0 : SrcOk cfg s0) by exact SK.
-    eapply linv_gr; [exact SK0|exact K'|exact L0|apply gr_finish_op|apply nz_finish_op|].
-    intros X. apply sl_finish_ok. eapply qs_ext with (s := s); try reflexivity. eapply qs_of; [exact TI|exact X|rewrite Epc; reflexivity].
+    eapply linv_gr; [exact SK1|exact K'|exact L1| |reflexivity|intros X; contradiction]. apply gr_same; [repeat split|reflexivity|reflexivity|reflexivity].
+  - (* CInitSeq *)
+    destruct (ldm (mt s)); inv_some H.
+    1: match goal with |- LInv ?c (finish_op _ ?x _) =>
+           assert (L0 : LInv c x) by (eapply linv_ext; [..|exact L]; reflexivity);
+           assert (SK0 : SrcOk c x) by exact SK end.
+    2: match goal with |- LInv ?c (finish_op _ ?x _) => assert (L0 : LInv c x); [|assert (SK0 : SrcOk c x) by exact SK] end.
+    2: { (* no LDM: serial.nextJobID is reset here: no pool thread holds a job, doneJobID = nextJobID = 0 *)
+      assert (Hnw : forall t x, nth_error (ws s) t = Some x -> active (w_pc x) = true -> False).
+      { intros t x Hx Ax. destruct (k_wrk _ _ K t x Hx Ax) as (i & (X & Y) & _). lia. }
+      constructor; cbn [mt sr ws set_sr set_pl s_next].
+      - intros t x Hx Px. exfalso. apply (Hnw t x Hx). destruct (w_pc x); try discriminate; reflexivity.
+      - intros i (X & Y). cbn in X, Y. lia.
+      - intros t x Hx Px. exfalso. apply (Hnw t x Hx). rewrite Px. reflexivity.
+      - intros X. lia. }
+    all: eapply linv_gr; [exact SK0|exact K'|exact L0|apply gr_finish_op|apply nz_finish_op|].
+    all: intros X; apply sl_finish_ok; eapply qs_ext; [| | | | |eapply qs_of; [exact TI|exact X|rewrite Epc; reflexivity]]; reflexivity.
 Qed.
 
 (* ------------------------------------------------------------------ *)
